@@ -9,6 +9,7 @@ CHOICE = {
     "auto": "auto", "none": "none", "required": "required",
     "fn_ls": {"type": "function", "name": "ls"},
     "allowed_write": {"type": "allowed_tools", "mode": "auto", "tools": [{"type": "function", "name": "write"}]},
+    "allowed_hosted_only": {"type": "allowed_tools", "mode": "auto", "tools": [{"type": "web_search_preview"}]},
 }
 KIND = {
     "message": "continuity_message_appended", "run_spawned": "continuity_run_spawned",
